@@ -40,7 +40,7 @@
 #ifndef VP_OP
 #define VP_OP 0
 #endif
-#define VP_NUMMAX 15    /* file numbers 1..15 (only used as set members) */
+#define VP_NUMMAX 15    /* live-set recorder domain 1..15; file g has number 3 + 2g */
 #define VP_KMAX 4
 
 void ldb_log(ldb_logger_t *logger, const char *fmt, ...) { (void)logger; (void)fmt; }
@@ -58,7 +58,7 @@ static int v_file[VP_KMAX][VP_FV + 1];  /* file object held in slot s of version
 static int v_lvl[VP_KMAX][VP_FV + 1];   /* its level */
 static int v_refs0[VP_KMAX];
 
-static int live[VP_NUMMAX + 1];
+static uint32_t live_mask;   /* bit n: number n was put into the live set */
 static int live_bad = 0;
 
 /* ---- recorders below the unit ---- */
@@ -82,11 +82,11 @@ ldb_filemeta_unref(ldb_filemeta_t *z) {
 
 int
 rb_set64_put(rb_tree_t *tree, uint64_t item) {
-  int n;
   (void)tree;
-  if (item < 1 || item > VP_NUMMAX) live_bad = 1;
-  for (n = 1; n <= VP_NUMMAX; n++)
-    if ((uint64_t)n == item) live[n] = 1;
+  if (item < 1 || item > VP_NUMMAX)
+    live_bad = 1;
+  else
+    live_mask |= (uint32_t)1 << (unsigned)item;
   return 1;
 }
 
@@ -94,6 +94,11 @@ rb_set64_put(rb_tree_t *tree, uint64_t item) {
 static void
 fill_version(int k) {
   int s, l, g, t;
+  ldb_filemeta_t *f;
+  /* every level vector gets its (concrete) capacity up front, so that the
+     symbolic placement below is a plain store and never a reallocation */
+  for (l = 0; l < LDB_NUM_LEVELS; l++)
+    ldb_vector_grow(&vp[k]->files[l], VP_FV + 1);
   for (s = 0; s < VP_FV; s++) {
     v_file[k][s] = vp_int();
     VP_ASSUME(v_file[k][s] >= 0 && v_file[k][s] < VP_NF);
@@ -101,10 +106,12 @@ fill_version(int k) {
       VP_ASSUME(v_file[k][t] != v_file[k][s]);   /* a file appears once per version */
     v_lvl[k][s] = vp_int();
     VP_ASSUME(v_lvl[k][s] >= 0 && v_lvl[k][s] < LDB_NUM_LEVELS);
+    f = fmp[0];
+    for (g = 1; g < VP_NF; g++)
+      if (g == v_file[k][s]) f = fmp[g];
     for (l = 0; l < LDB_NUM_LEVELS; l++)
-      for (g = 0; g < VP_NF; g++)
-        if (l == v_lvl[k][s] && g == v_file[k][s])
-          ldb_vector_push(&vp[k]->files[l], fmp[g]);
+      if (l == v_lvl[k][s])
+        ldb_vector_push(&vp[k]->files[l], f);
   }
 }
 
@@ -137,7 +144,7 @@ static void
 check_live(const int *present, int total) {
   int n, k, g, want;
   rb_set64_t set;
-  for (n = 0; n <= VP_NUMMAX; n++) live[n] = 0;
+  live_mask = 0;
   ldb_versions_add_files(&vset, &set);
   VP_ASSERT(!live_bad, "only file numbers of the version set are reported");
   for (n = 1; n <= VP_NUMMAX; n++) {
@@ -145,7 +152,7 @@ check_live(const int *present, int total) {
     for (k = 0; k < total; k++)
       for (g = 0; g < VP_NF; g++)
         if (present[k] && holds(k, g) && fmp[g]->number == (uint64_t)n) want = 1;
-    VP_ASSERT(live[n] == want, "live set == exactly the files of every version still in the list (any level)");
+    VP_ASSERT((int)((live_mask >> n) & 1) == want, "live set == exactly the files of every version still in the list (any level)");
   }
 }
 
@@ -161,11 +168,8 @@ harness(void) {
   vset.current = NULL;
 
   for (g = 0; g < VP_NF; g++) {
-    int h;
-    fmp[g]->number = vp_u64();
-    VP_ASSUME(fmp[g]->number >= 1 && fmp[g]->number <= VP_NUMMAX);
-    for (h = 0; h < g; h++)
-      VP_ASSUME(fmp[h]->number != fmp[g]->number);
+    /* file numbers are only handed on by the unit (never compared): concrete and distinct */
+    fmp[g]->number = 3 + 2 * (uint64_t)g;
     fmp[g]->file_size = 1;
     fmp[g]->allowed_seeks = 100;
   }
@@ -233,7 +237,9 @@ harness(void) {
       VP_ASSERT(fmp[g]->refs == f_refs0[g] - want, "file counts: minus one for the files of the dying version only");
     }
     check_live(present, total);
+#if VP_K >= 2
     if (dies && j == 0) VP_WITNESS("oldest-version-dies");
+#endif
 #if VP_K >= 3
     if (dies && j == 1) VP_WITNESS("middle-version-dies");
 #endif
